@@ -540,6 +540,18 @@ func (m *StateMachine) beginRoundLive(
 		rlc.VRV = &initVRV
 		return true
 
+	case tsi.StepPrevoteDelay, tsi.StepPrecommitDelay:
+		// We are entering a round in which the majority of the network
+		// has already prevoted or precommitted without reaching consensus on one target.
+		// Enter the round awaiting a proposal,
+		// then apply the initial view as though it were an update crossing those thresholds,
+		// so that the timers and consensus strategy requests match the live flow.
+		rlc.S = tsi.StepAwaitingProposal
+		rlc.VRV = &initVRV
+		rlc.StepTimer, rlc.CancelTimer = m.rt.ProposalTimer(ctx, rlc.H, rlc.R)
+		m.handleProposalViewUpdate(ctx, rlc, initVRV)
+		return true
+
 	default:
 		panic(fmt.Errorf("BUG: unhandled initial step %s", curStep))
 	}
